@@ -57,6 +57,29 @@ SPECS = {
         },
         "assumptions": ["u64 indexes (<= 2^64-1) for the joint 'largest' statement"],
     },
+    "C14": {
+        "id": "C14", "kind": "component", "component": "raftlog",
+        "run_module": "Run.RunRaftLog", "runfun": "run_raftlog",
+        "gens": [
+            {"prefix": "raftlog-exh", "args": {"quick": ["--mode", "exhaustive", "--depth", "4"],
+                                                "thorough": ["--mode", "exhaustive", "--depth", "5"]}},
+            {"prefix": "raftlog-rnd", "args": {"quick": ["--mode", "random", "--count", "2000", "--len", "150"],
+                                                "thorough": ["--mode", "random", "--count", "20000", "--len", "200"]}},
+        ],
+        "incoq": {"quick": 120, "thorough": 500},
+        "nontrivial_tokens": 10,
+        "rule": "cases = (exhaustive) breadth-first over every distinct full state (RaftLog pub fields + MemStorage contents) reachable within depth-1 operations from 5 initial stores (empty, 2-3 entries with terms <= 3, snapshot points), log length <= 5; from every such state one case per operation of the full alphabet (append / maybe_append with agreeing and conflicting entries at every index from first-1 to last+2, i.e. every position relative to unstable.offset / persisted / committed; commit_to, maybe_commit, applied_to, stable_entries, stable_snap, restore, maybe_persist, maybe_persist_snap, storage append/apply_snapshot/compact/commit_to, restart, raw Unstable::truncate_and_append, non-contiguous and out-of-contract arguments) and a query battery (term, match_term, find_conflict, find_conflict_by_term for every index and term 0..3, is_up_to_date, slice for every lo<=hi with size limits 0 / each prefix-sum boundary -1,+0,+1 / NO_LIMIT, entries, next_entries* under limits 0,1,u64::MAX-1,u64::MAX, snapshot, commit_info, Unstable::{maybe_term,slice,must_check_outofbounds}); (random) seeded Ready-contract sequences of 150-200 operations with data lengths 0..160 (two thirds fully valid, one third with occasional invalid choices) + a malformed stream (u64::MAX / 2^63 arguments). Every case compares each operation's result (value / storage error code / panic site) and after every mutator the full state dump incl. all logical entries via slice; non-trivial = at least one operation; distinct = distinct case lines",
+        "explanation": "Theorems for all states and all operation sequences (unbounded): Props/C14.v (72 statements: abs/RepInv, every query = plain-sequence definition, every mutator = list operation preserving RepInv, slice = limit_size of the plain range with the non-empty maximal prefix property, committed_immutable with the exact fatal cases, persisted_sound, history invariants, refuted variants with witnesses). Tie: lockstep differential of M/RaftLog.v (over M/MemStorage.v) against raft::RaftLog<MemStorage> on every run + vm_compute sample; independent plain-sequence monitor (vharness raftlog --mode monitor) used for searching a failing input.",
+        "trusted_base": TB_COMMON + ["RaftLog/Unstable pub fields and MemStorage public API read directly; panic sites identified by message text and enclosing function of the panic location",
+                                     "modelled not verified: src/raft_log.rs, src/log_unstable.rs (all pub methods; scan specialised), util::limit_size, entry compute_size; model assumption: indexes held in the log are < 2^64-1-length so the unchecked index+1 / offset+len additions do not wrap (caller-supplied arithmetic is modelled with overflow sites)"],
+        "manifest": {
+            "technique": "machine-checked proof in Coq (abstraction function to a plain sequence, representation invariant, per-operation refinement, induction over histories) + model/implementation correspondence by differential execution",
+            "text": "Props/C14.v (72 pinned theorems, all states / all operation sequences): with abs = storage entries below unstable.offset ++ unstable entries (base from the pending snapshot else the storage) and a representation invariant established by RaftLog::new, every query (term, first/last index, match_term, find_conflict, find_conflict_by_term incl. termination of its loop, is_up_to_date, slice, entries, next_entries_since, commit_info) equals its plain-sequence definition; append / maybe_append / commit_to / maybe_commit / applied_to / restore / stable_entries+storage append / stable_snap+apply_snapshot / maybe_persist(_snap) / compaction <= applied act as the obvious list operations and preserve the invariant, so along every history applied <= committed <= last, persisted <= storage last with matching terms, commit index and base are monotone and no entry at or below any earlier commit index changes; size-limited reads return a non-empty maximal prefix; the fatal cases are exactly append-below-commit and conflict-at-or-below-commit. Refuted (with witnesses): a raw truncating append at or below persisted keeps persisted; maybe_persist_snap before the snapshot reached the storage; stable_entries before the storage write; persisted+limit overflow. The model is tied to src/raft_log.rs + src/log_unstable.rs on every run by exhaustive small-scope + random differential over results, panic sites and full state.",
+            "design_ref": "DESIGN.md section 7, C14",
+            "note": "Trusted: Coq kernel; hand-written model validated by differential execution; extraction + OCaml driver cross-checked by vm_compute; Rust harness; debug-build semantics; MemStorage as the conforming Storage (its model is C19's). No axioms.",
+        },
+        "assumptions": ["debug-build semantics", "stored indexes < 2^64-1-length (no wrap of index+1)", "storage test triggers (trigger_log_unavailable / trigger_snap_unavailable) off", "Ready contract order: storage write before stable_entries / stable_snap (the async order is outside the invariant; witness stable_before_write_refuted)"],
+    },
 }
 
 SPECS["C12"] = {
